@@ -51,7 +51,7 @@ MSG_SHAPES = ["plain", "placeholder", "escquote", "unicode", "reflike_inside", "
               "width", "leading_space"]
 FEATS = {
     "path": ["bare", "qual"], "level": ["info", "warn", "error"], "target": ["none", "plain", "colons", "slashes", "escq", "blockopen"],
-    "nkv": [0, 1, 2, 3], "kv0": KV_SHAPES, "msg": MSG_SHAPES, "lay": ["tight", "space", "nl", "blockc", "linec"],
+    "nkv": [0, 1, 2, 3], "kv0": KV_SHAPES, "msg": MSG_SHAPES, "lay": ["tight", "space", "nl", "nl0", "blockc", "linec"],
     "directive": ["none", "none", "none", "ignore", "no-kvp"], "trailcomma": [False, True],
 }
 KEYS = ["a", "b", "user_id", "k9", "_x", "count", "r", "reference", "refx"]
@@ -132,7 +132,7 @@ def build_program(rows, seed, structured):
         parts += [lit, args]
         if f["trailcomma"] and args:
             parts.append(",")
-        parts += [L() if f["lay"] in ("space", "nl") else "", ")"]
+        parts += [L() if f["lay"] in ("space", "nl", "nl0") else "", ")"]
         stmt = "".join(parts)
         body = "fn s%d() {\n%s" % (i, LOCALS)
         if f["directive"] == "ignore":
@@ -270,8 +270,27 @@ def work(job):
                                                  "after_source_excerpt": r1["after_src"][-400:]},
                                       "case": {"rows": [row], "structured": structured}})
         if not offenders:
-            res["violations"].append({"signature": "C09.edited-program-does-not-compile|%s|whole-program-only" % ("structured" if structured else "unstructured"),
-                                      "detail": {"rustc": r["err"][-500:]}, "case": {"rows": rows, "structured": structured}})
+            # no single statement fails alone: the failure needs several statements of the file together -> reduce the
+            # statement list while the edited program keeps failing to compile (ddmin by single removals)
+            cur = list(rows)
+            i = 0
+            while i < len(cur) and len(cur) > 1:
+                trial = cur[:i] + cur[i + 1:]
+                r2 = run_program(built, trial, "%d-%d-dd" % (seed, pi), structured)
+                if "gen_error" not in r2 and r2.get("after") is None:
+                    cur = trial
+                else:
+                    i += 1
+            descr = []
+            for row in cur[:3]:
+                nn = {k: row[k] for k in ("nkv", "directive", "target") if row[k] not in ("none", 0)}
+                descr.append(",".join("%s=%s" % kv for kv in sorted(nn.items())) or "plain")
+            r3 = run_program(built, cur, "%d-%d-dd" % (seed, pi), structured)
+            res["violations"].append({"signature": "C09.edited-program-does-not-compile|%s|needs-%d-statements[%s]" % (
+                                          "structured" if structured else "unstructured", len(cur), " + ".join(descr)),
+                                      "detail": {"rustc": (r3.get("err") or r["err"])[-500:], "statements_before": [m["stmt"] for m in r3["meta"]][:4],
+                                                 "after_source_excerpt": r3.get("after_src", "")[-600:]},
+                                      "case": {"rows": cur, "structured": structured}})
         return res
     for clause, i, detail in v:
         row = rows[i] if i is not None else {}
